@@ -753,4 +753,22 @@ theorem pretty_text_stable_core (cfg : Cfg) (hm : cfg.mini = false) (hi : Indent
   congr 2
   exact outToks_congr cfg dt n st sc _ _ (outRoot_stable cfg hm hi n st sc kids hs)
 
+/-- `pretty_text_stable_core` for ANY token sequence whose plain-parser tree is the strict single-root document (implicit
+    closes, elements left open at the end of the input) -/
+theorem pretty_text_stable_core_open (cfg : Cfg) (hm : cfg.mini = false) (hi : IndentWS cfg)
+    (n : Str) (st : AStore) (sc : Bool) (kids : List FNode)
+    (hs : (FNode.elem n st sc kids).Strict) (hnw : (FNode.elem n st sc kids).NoWrapper)
+    (toks : List Tok) (hnws : NoWrapperStart toks) (ps : St) (hp : Plain.feed toks = .ok ps)
+    (hroot : ps.root = some (FNode.elem n st sc kids).toNode) (hdt : DtOK ps.doctype) :
+    ∃ out1 toks2 out2 toks3, format cfg toks = .ok out1 ∧ lexStrict out1 = some toks2 ∧
+      format cfg (toks2.map Tok.ofToken) = .ok out2 ∧ lexStrict out2 = some toks3 ∧
+      format cfg (toks3.map Tok.ofToken) = .ok out2 := by
+  obtain ⟨f1, l1, w1, p1, s1, n1⟩ := pass_step_open cfg hi ps.doctype hdt n st sc kids hs hnw toks hnws ps hp hroot rfl
+  obtain ⟨f2, l2, w2, p2, s2, n2⟩ := pass_step cfg hi ps.doctype hdt n st sc _ s1 n1 _ w1 p1
+  obtain ⟨f3, _, _, _, _, _⟩ := pass_step cfg hi ps.doctype hdt n st sc _ s2 n2 _ w2 p2
+  refine ⟨_, _, _, _, f1, l1, f2, l2, ?_⟩
+  rw [f3]
+  congr 2
+  exact outToks_congr cfg ps.doctype n st sc _ _ (outRoot_stable cfg hm hi n st sc kids hs)
+
 end AHP.Fmt
